@@ -5,6 +5,8 @@ package main
 //
 //   put/<keyhex>/<t>=<list>   read/<cols>   readself   readzero   get/<keyhex>   getadd/<keyhex>/<v>   getset/<keyhex>/<i>/<v>
 //   table   sort/<keyhex>/<asc>   sortany/<keyhex>/<asc>/<key2hex>/<asc2>   write   empty
+//   iter (Iterate: an unpacking access; the keys handed to the callback # the number of calls)
+//   str  (ToString: data.Size(), dataBytesSize, len(dataBytes) — the lazy state as the pack shows it)
 //
 // compared with the Lean model of the lazy table (Golib.Lists.PackTable: unpack merges the wire
 // columns into the in-memory table, Put/Sort do not unpack, Write caches) and with a mirror of the
@@ -13,8 +15,11 @@ package main
 
 import (
 	"encoding/binary"
+	"regexp"
 	"strconv"
 	"strings"
+
+	"github.com/whatap/golib/util/list"
 
 	gio "github.com/whatap/golib/io"
 	"github.com/whatap/golib/lang/pack"
@@ -22,6 +27,8 @@ import (
 )
 
 var packHdrLen = -1
+
+var rePackStr = regexp.MustCompile(`packType=\s*(-?\d+)\s*,data=\s*(\d+)\s*,length=\s*(\d+)\s*,bytes=\s*(\d+)`)
 
 func hdrLen() int {
 	if packHdrLen < 0 {
@@ -96,6 +103,38 @@ func execH(ops []string) []string {
 					res = "b1"
 				} else {
 					res = "b0"
+				}
+			case "iter":
+				var keys []string
+				calls, bad := 0, ""
+				p.Iterate(func(a []string, b []list.AnyList, i int) {
+					if i != calls || len(a) != len(b) {
+						bad = "callback arguments out of step"
+					}
+					if calls == 0 {
+						for _, k := range a {
+							keys = append(keys, val{s: k}.str('s'))
+						}
+					}
+					calls++
+				})
+				switch {
+				case bad != "":
+					res = "I!" + bad
+				case calls == 0:
+					res = "I-"
+				default:
+					res = "I" + strings.Join(keys, ",") + "#" + strconv.Itoa(calls)
+				}
+			case "str":
+				m := rePackStr.FindStringSubmatch(p.ToString())
+				switch {
+				case m == nil:
+					res = "S?" + vh.Clip(p.ToString(), 60)
+				case m[1] != strconv.Itoa(int(p.GetPackType())):
+					res = "S!packType " + m[1]
+				default:
+					res = "S" + m[2] + "," + m[3] + "," + m[4]
 				}
 			default:
 				panic("bad op " + op)
@@ -295,6 +334,18 @@ func (m *mirror) step(op string) string {
 			return "b1"
 		}
 		return "b0"
+	case "iter":
+		m.unpack()
+		if len(m.table) == 0 || len(m.table[0].vs) == 0 {
+			return "I-" // no call
+		}
+		keys := make([]string, len(m.table))
+		for i, c := range m.table {
+			keys[i] = val{s: c.key}.str('s')
+		}
+		return "I" + strings.Join(keys, ",") + "#" + strconv.Itoa(len(m.table[0].vs))
+	case "str":
+		return "?" // the byte counts are compared with the model
 	}
 	return "u"
 }
@@ -391,14 +442,18 @@ func genH(r *vh.Rng) string {
 				continue
 			}
 			op = "sortany/" + hexKey(k1) + "/" + b2s(r.Bool()) + "/" + hexKey(k2) + "/" + b2s(r.Bool())
-		case x < 95:
+		case x < 93:
 			op = "write"
-		default:
+		case x < 96:
 			op = "empty"
+		case x < 98:
+			op = "iter"
+		default:
+			op = "str"
 		}
 		m.step(op)
 		ops = append(ops, op)
 	}
-	ops = append(ops, "write", "table", "write", "readself", "table")
+	ops = append(ops, "write", "str", "table", "write", "readself", "str", "iter", "str", "table")
 	return "H " + strings.Join(ops, ";")
 }
